@@ -59,8 +59,9 @@ PNum(x, p) ==
       p4  == IF hasE THEN (IF esign THEN p3 + 2 ELSE p3 + 1) ELSE p3
       edig == IF hasE THEN DigitsFrom(x, p4) ELSE <<>>
       p5  == p4 + Len(edig)
-  IN [v |-> [t |-> "num", dec |-> MkDec(neg, idig, fdig, eneg, IF Len(edig) > 7 THEN <<>> ELSE edig),
-             plain |-> ~hasF /\ ~hasE, minus |-> neg, huge |-> Len(StripLead(edig)) > 7],
+      e1  == StripLead(edig)           \* exponent digits without leading zeros; more than 7 of them is beyond TLC's integers
+  IN [v |-> [t |-> "num", dec |-> MkDec(neg, idig, fdig, eneg, IF Len(e1) > 7 THEN <<>> ELSE e1),
+             plain |-> ~hasF /\ ~hasE, minus |-> neg, huge |-> Len(e1) > 7],
       p |-> p5]
 
 \* ---------------------------------------------------------------- reading a string
